@@ -269,7 +269,8 @@ class Pass1(CompilePass):
             self.compilation.def_letter_types[letter] = node.type
 
     def process_sub_block_pre(self, node):
-        if node.parent_routine.name != '_main':
+        if node.parent_routine.name != '_main' or \
+           isinstance(node.parent, Block):
             raise CompileError(
                 EC.ILLEGAL_IN_SUB,
                 'Sub-routine only allowed in the top-level',
@@ -300,7 +301,8 @@ class Pass1(CompilePass):
         self.compilation.routines[node.name] = routine
 
     def process_function_block_pre(self, node):
-        if node.parent_routine.name != '_main':
+        if node.parent_routine.name != '_main' or \
+           isinstance(node.parent, Block):
             raise CompileError(
                 EC.ILLEGAL_IN_SUB,
                 'Function only allowed in the top-level',
